@@ -46,7 +46,7 @@ func newMockPeer(n int) *mockPeer {
 	return &mockPeer{id: id, ip: ip, addr: a, kv: map[string]interface{}{}, started: true, polls: -1, quit: make(chan struct{})}
 }
 
-func (p *mockPeer) Start() error { p.started = true; return nil }
+func (p *mockPeer) Start() error   { p.started = true; return nil }
 func (p *mockPeer) OnStart() error { return nil }
 func (p *mockPeer) Stop() error {
 	p.mu.Lock()
